@@ -34,6 +34,9 @@ def check(ctx, R):
         rule_order(ctx, R, roles, li)
         rule_deny(ctx, R, roles, li)
         _pump(ctx, R, roles, li, T)
+        # "every operation completes": an operation waiting on a silent stream while other streams keep the wire busy still meets its deadline
+        from .c11 import loop_rules
+        loop_rules(ctx, R, roles, T)
     _args_match(ctx, R, T)
     _nd_park(ctx, R)
     from .c19 import store_lifetime_rules
